@@ -433,3 +433,24 @@ prop(
     essential=dict(quick=["engine-V", "engine-R", "stream-above-64KiB", "zero-size-buffer", "stdout-and-stderr-interleaved", "startup-input", "stderr-to-stdout", "blocking", "nonblocking", "via-drain"]),
     assumptions=["SIGPIPE ignored in the parent", "with stderr redirected to stdout child writes are kept <= 4096 bytes (atomic) so that script order is pipe order"],
 )
+
+prop(
+    "C16",
+    title="Drain and run deliver each stream to its sink with the documented protocol",
+    level="exploration",
+    engine="vtime",
+    campaigns=[dict(bin="C16", random=dict(quick=4000, thorough=60000))],
+    level_text=("reproc_drain and reproc::drain on the virtual-time engine: child scripts of up to 10 timed writes (0 B - 1 MiB), closes and an exit over both streams; stdout piped or not; stderr piped, "
+                "redirected to stdout, parent (default) or discarded; two recording sinks, one sink for both streams, string sinks (initial content NULL / empty / non-empty, one string for both "
+                "streams or two, realloc failing at a generated growth step), REPROC_SINK_NULL, a sink without a function; a sink that returns a generated non-zero value at a generated call; deadlines "
+                "before, during and after the output. The oracle works on the recorded sink calls (which sink, tag, size, virtual time, content continuity): the two initial IN/0 calls, tag-to-sink "
+                "routing, chunk size <= 4096, content continuity per stream, exactly one closing call per piped stream and none for others, 0 only when all piped streams closed, the sink's value "
+                "returned at once with no later call, the timeout error exactly at the deadline with no chunk after it, string == initial ++ bytes (also after ENOMEM). One case in six runs "
+                "reproc_run_ex / reproc_run / reproc::run on the real clock against an autonomous child: exit status, first error (missing program, failing sink, deadline, fork option), child reaped, ledger clean."),
+    level_note="With stderr merged into stdout only totals are checked for the merged stream. run() cases use the real clock with generous margins (child lingers 4 s against a 150 ms deadline).",
+    technique="property-based testing (rapidcheck tape) with recording sinks on the virtual-time engine; protocol oracle over the call log; C/C++ differential through the same recorder",
+    rule=("tape -> redirect choices, child script, sink kind, failure plan, string initial content, realloc fault index, deadline, C or C++ (drain); sizes, exit code, API, failure kind (run). Non-trivial: both "
+          "streams piped and both non-empty, or a sink failure / allocation failure / deadline actually hit, or a run error path. Distinct: hash of configuration and script."),
+    essential=dict(quick=["drain", "run", "both-streams-piped-and-nonempty", "sink-failure-hit", "allocation-failure-hit", "deadline-hit", "via-cxx", "string-sink", "null-sink-function", "stderr-to-stdout", "unpiped-stream", "run-error-path", "run:reproc_run_ex", "run:reproc_run", "run:reproc::run"]),
+    assumptions=["child output contains no NUL bytes (documented limitation of the string sink)", "reproc_run is exercised with the discard shorthand so that the child's output does not land in the worker's log"],
+)
